@@ -130,7 +130,107 @@ def h_passive_commute(env, d, modes1, modes2, post):
         env.equal("untouched rows", st.interferometer[rest, :], orig[rest, :])
 
 
-HARNESSES = {"gaussian_relabel": h_gaussian_relabel, "gaussian_commute": h_gaussian_commute,
+def h_remap(env):
+    """Simulator._remap_modes / _remap_modes_inverse / _delete_modes_from_active for a solver-chosen set of
+    active modes (subset of 0..4) and an ORDERED pair of distinct active modes: positions are returned in the
+    user's order; inverse and deletion are consistent."""
+    from piquasso.api.simulator import Simulator
+    mask = [env.pick_int("in%d" % k, 0, 1) for k in range(5)]
+    active = tuple(k for k in range(5) if mask[k])
+    a = env.pick_int("a", 0, 4)
+    b = env.pick_int("b", 0, 4)
+    if a == b or a not in active or b not in active:
+        if env.mode == "sym":
+            raise xa.PathAbort("not a valid request")
+        env.num_assumptions.append(("valid", False))
+        return
+    env.functions += [core.fn_ref(Simulator._remap_modes), core.fn_ref(Simulator._remap_modes_inverse), core.fn_ref(Simulator._delete_modes_from_active)]
+    r = Simulator._remap_modes(active, (a, b))
+    ok = tuple(r) == (active.index(a), active.index(b))
+    ok = ok and tuple(Simulator._remap_modes_inverse(active, r)) == (a, b)
+    rest = Simulator._delete_modes_from_active(active, r)
+    ok = ok and tuple(rest) == tuple(m for m in active if m not in (a, b))
+    env.holds("remap keeps the user's order; inverse and deletion consistent (active=%s modes=%s -> %s)" % (active, (a, b), tuple(r)) if not ok else "remap consistent", bool(ok))
+
+
+def h_execution_remap(env):
+    """end to end on the real Simulator pipeline with recording stub steps: after a mid-circuit measurement of
+    a solver-chosen mode, a two-mode gate on ordered (a, b) is executed on the positions of a and b among the
+    remaining modes IN THE USER'S ORDER, and a relabelled program is executed on the relabelled positions."""
+    from . import C12
+    ns = _plain_c12()
+    m = env.pick_int("m", 0, 3)
+    a = env.pick_int("a", 0, 3)
+    b = env.pick_int("b", 0, 3)
+    if len({m, a, b}) < 3:
+        if env.mode == "sym":
+            raise xa.PathAbort("distinct")
+        env.num_assumptions.append(("valid", False))
+        return
+    pq_ = ns["pq"]
+    log = []
+    orig = ns["step"]
+
+    def rec(state, instruction, shots):
+        log.append(tuple(instruction.modes))
+        return orig(state, instruction, shots)
+    ns["Sim"]._instruction_map = {ns["G1"]: rec, ns["G2"]: rec, ns["M"]: ns["mstep"]}
+    ns["_arm"](-1, -1)
+    prog = pq_.Program(instructions=[ns["M"]().on_modes(m), ns["G2"](0.3).on_modes(a, b)])
+    ns["Sim"](d=4).execute(prog, shots=1)
+    remaining = [x for x in range(4) if x != m]
+    env.functions.append(core.fn_ref(__import__("piquasso").api.simulator.Simulator._do_execute_instructions))
+    env.holds("gate executed on the positions of (a, b) in the user's order", log == [(remaining.index(a), remaining.index(b))])
+
+
+_PLAIN12 = {}
+
+
+def _plain_c12():
+    from . import C12
+    if not _PLAIN12:
+        exec(compile(C12.HEADER, "<C12 header>", "exec"), _PLAIN12)
+    return _PLAIN12
+
+
+def h_fock_linear_glue(env, sim, d, modes):
+    """pure / mixed Fock `linear` step (active multi-mode gates): with the Bloch-Messiah factors stubbed by
+    arbitrary markers (euler is LAPACK), the first interferometer, the k single-mode squeezers and the last
+    interferometer are applied to the instruction's modes - squeezer k on modes[k]."""
+    from piquasso._simulators.fock.pure import simulation_steps as psteps_
+    from piquasso._simulators.fock.general import simulation_steps as gsteps_
+    from piquasso._simulators.fock.pure.state import PureFockState
+    from piquasso._simulators.fock.general.state import FockState
+    modes = tuple(modes)
+    k = len(modes)
+    mod = psteps_ if sim == "pure" else gsteps_
+    conn = cm.connector(env)
+    cfg = cm.config(env, cutoff=2)
+    st = (PureFockState if sim == "pure" else FockState)(d=d, connector=conn, config=cfg)
+    UL, UF = object(), object()
+    sq = [object() for _ in range(k)]
+    log = []
+    saved = {n: getattr(mod, n) for n in ("euler", "_apply_passive_linear") + (("_apply_squeezing",) if sim == "pure" else ("get_single_mode_squeezing_operator", "_apply_active_gate_matrix_to_state"))}
+    try:
+        mod.euler = lambda symplectic, connector: (UL, sq, UF)
+        mod._apply_passive_linear = lambda state, U, m, *a: log.append(("passive", U, tuple(m)))
+        if sim == "pure":
+            mod._apply_squeezing = lambda state, r, phi, mode: log.append(("squeeze", r, mode))
+        else:
+            mod.get_single_mode_squeezing_operator = lambda r, phi, connector, cutoff, complex_dtype: ("op", r)
+            mod._apply_active_gate_matrix_to_state = lambda state, matrix, mode: log.append(("squeeze", matrix[1], mode))
+        inst = pq.Squeezing2(r=0.3, phi=0.2).on_modes(*modes) if k == 2 else pq.GaussianTransform(numpy.identity(k), numpy.zeros((k, k))).on_modes(*modes)
+        mod.linear(st, inst, None)
+    finally:
+        for n, v in saved.items():
+            setattr(mod, n, v)
+    want = [("passive", UF, modes)] + [("squeeze", sq[j], modes[j]) for j in range(k)] + [("passive", UL, modes)]
+    env.functions.append(core.fn_ref(mod.linear))
+    env.stubs.append("euler (LAPACK polar/logm/svd) -> arbitrary marker factors; _apply_passive_linear / squeezing application -> recorders")
+    env.holds("factors applied to the instruction's modes in order (got %s)" % ([(t, m) for t, _, m in log],), log == want)
+
+
+HARNESSES = {"remap": h_remap, "execution_remap": h_execution_remap, "fock_linear_glue": h_fock_linear_glue, "gaussian_relabel": h_gaussian_relabel, "gaussian_commute": h_gaussian_commute,
              "passive_relabel": h_passive_relabel, "passive_commute": h_passive_commute}
 
 
@@ -174,6 +274,11 @@ def instances(tier, seed):
                 ps_ = list(itertools.permutations(range(dd)))
                 for pi in (ps_[1:] if (tier == "thorough" and dd <= 3) else [ps_[-1], ps_[len(ps_) // 2]]):
                     out.append(("passive_relabel", {"d": dd, "modes": list(m), "perm": list(pi)}))
+    out.append(("remap", {}))
+    out.append(("execution_remap", {}))
+    for sim in ("pure", "mixed"):
+        for d, m in ((3, (1, 2)), (3, (2, 0)), (4, (3, 1)), (4, (2, 0, 3))):
+            out.append(("fock_linear_glue", {"sim": sim, "d": d, "modes": list(m)}))
     out.append(("passive_commute", {"d": 3, "modes1": [2], "modes2": [0, 1], "post": []}))
     out.append(("passive_commute", {"d": 3, "modes1": [1, 0], "modes2": [2], "post": [[1, 1]]}))
     out.append(("passive_commute", {"d": 2, "modes1": [1], "modes2": [0], "post": [[0, 2]]}))
@@ -199,6 +304,12 @@ def run(rep, tier, seed, opts):
     rep.bounds = {"gaussian": "d=3 (thorough: also d=4), all (quick: 3) non-trivial permutations, ordered mode tuples", "passive": "d<=3 (4), generic complex k x k matrices, k<=2, post-selected modes",
                   "outside": "Fock-space index tables (covered with C01 machinery when built), fermionic simulators (C17), outcome tuples of measurements"}
     o = {"timeout_s": 60 if tier == "quick" else 300, "instance_timeout_s": 400 if tier == "quick" else 1800, "seed": seed, "validation_points": 1}
-    for r in core.run_instances(__name__, inst, o, jobs=opts.get("jobs")):
+    light = [i for i in inst if i[0] in ("remap", "execution_remap")]
+    heavy = [i for i in inst if i[0] not in ("remap", "execution_remap")]
+    for r in core.run_instances(__name__, heavy, o, jobs=opts.get("jobs")):
         rep.add_instance_result(__name__, r)
+    if light:
+        o2 = dict(o, light_paths=True, path_budget=20000, validation_points=0)
+        for r in core.run_instances(__name__, light, o2, jobs=opts.get("jobs")):
+            rep.add_instance_result(__name__, r)
     return rep.finish(level="other", explanation=EXPLANATION)
